@@ -26,9 +26,9 @@ def mkF? (s : String) : Option Model.AbsMk.F :=
   match s.toList with
   | o :: rest =>
     match bits? (String.ofList rest) with
-    | some [a, b, c, d, e, g, h] =>
+    | some [a, b, c, d, e, g, h, i] =>
       let n := if o == '0' then 0 else if o == '1' then 1 else 2
-      some ((((((((Model.AbsMk.F.init.setOpenings n).setOpeningRec a).setInvoicePaid b).setSpentBack c).setClaimTxRec d).setCsvWatch e).setResend g).setSuspicious h)
+      some (((((((((Model.AbsMk.F.init.setOpenings n).setOpeningRec a).setInvoicePaid b).setSpentBack c).setClaimTxRec d).setCsvWatch e).setResend g).setSuspicious h).setAgreementRec i)
     | _ => Option.none
   | [] => Option.none
 
